@@ -7,7 +7,7 @@ W=/tmp/seed/$P
 export GOPROXY=off GOSUMDB=off GOTOOLCHAIN=local
 cd $W || exit 2
 git checkout -q -- . ; git clean -fdq -e _seed
-for f in _seed/*_test.go; do cp "$f" "$PKG/zz_seed_$(basename $f)"; done
+for f in _seed/${DEMO:-*_test.go}; do cp "$f" "$PKG/zz_seed_$(basename $f)"; done
 orig=$(go test -vet=off -count=1 -run "$T" ./$PKG/ 2>&1 | tail -3); echo "ORIGINAL: $orig" | tail -2
 git apply _seed/patch.diff || { echo "PATCH DOES NOT APPLY"; exit 2; }
 mut=$(go test -vet=off -count=1 -run "$T" ./$PKG/ 2>&1 | tail -4); echo "MUTATED: $mut" | tail -3
